@@ -13,6 +13,7 @@ unreachable from its initial state.
 -/
 import AutomataVerif.Proofs.Subset
 import AutomataVerif.Proofs.Elim
+import AutomataVerif.Proofs.MinGlueSubset
 
 namespace AV.Props.C07
 open AV AV.C07
@@ -87,11 +88,42 @@ theorem C07_from_nfa_min_partial (n : AV.NFA σ α) (hv : n.validate = .ok ()) (
   show (DFA.minifyCore n.toDFA.states n.toDFA.syms n.toDFA.trans n.toDFA.init n.toDFA.finals pick).accepts w = _
   rw [h2 w, mlang_eq_accepts wfD, C07_from_nfa_lang n hv ps]
 
-/-- The full statement for `minify=True`, without the C05 hypothesis (not proved in this file). -/
+/-- The full statement for `minify=True`, without the C05 hypothesis (proved:
+`C07_from_nfa_min_full_holds` below). -/
 def C07_from_nfa_min_full : Prop :=
   ∀ (σ α : Type) [DecidableEq σ] [DecidableEq α] (n : AV.NFA σ α), n.validate = .ok () → n.PyShape →
     ∀ pick : List Nat → Nat,
       (n.toDFAMin pick).validate = .ok () ∧ ∀ w, (n.toDFAMin pick).accepts w = n.accepts w
+
+/-- **C05's result for the call of `_minify` made by `from_nfa(minify=True)`**: the quotient
+validates and accepts the language of the refinement system it was given, for every pop
+order.  (Proofs/MinGlueSubset.lean: the subset DFA is the output of an exhaustive
+`_expand_dfa`, so all its states are reachable, which is what validity of the quotient
+needs besides `MinHyp`; then `hopcroft_nerode` + the quotient lemmas of C05.)  This is the
+conclusion of the hypothesis `hC05` of `C07_from_nfa_min_partial`. -/
+theorem C07_from_nfa_minifyCoreSpec (n : AV.NFA σ α) (hv : n.validate = .ok ()) (ps : n.PyShape)
+    (pick : List Nat → Nat) :
+    MinifyCoreSpec n.toDFA.states n.toDFA.syms n.toDFA.trans n.toDFA.init n.toDFA.finals pick := by
+  obtain ⟨h1, _, h3⟩ := toDFAMin_core ((NFA.validate_eq_ok n).mp hv) ps pick
+  exact ⟨h1, h3⟩
+
+/-- **Subset construction, `minify=True`, unconditionally** (both `retain_names` settings:
+the model compares names up to isomorphism).  For every valid NFA of Python shape and every
+pop order `pick` of the Hopcroft loop, `DFA.from_nfa(n, minify=True)` is a valid DFA with
+exactly the language of `n`. -/
+theorem C07_from_nfa_min (n : AV.NFA σ α) (hv : n.validate = .ok ()) (ps : n.PyShape)
+    (pick : List Nat → Nat) :
+    (n.toDFAMin pick).validate = .ok () ∧ ∀ w, (n.toDFAMin pick).accepts w = n.accepts w :=
+  C07_from_nfa_min_partial n hv ps pick (fun _ => C07_from_nfa_minifyCoreSpec n hv ps pick)
+
+/-- The minified subset DFA is again a value Python sets/dicts can hold (so it can be an
+operand of further operations). -/
+theorem C07_from_nfa_min_pyShape (n : AV.NFA σ α) (hv : n.validate = .ok ()) (ps : n.PyShape)
+    (pick : List Nat → Nat) : (n.toDFAMin pick).PyShape :=
+  (toDFAMin_core ((NFA.validate_eq_ok n).mp hv) ps pick).2.1
+
+theorem C07_from_nfa_min_full_holds : C07_from_nfa_min_full :=
+  fun _ _ _ _ n hv ps pick => C07_from_nfa_min n hv ps pick
 
 /-! ## B. `NFA.from_dfa` — a DFA viewed as an NFA -/
 
@@ -221,6 +253,10 @@ example : exK.toDFA.states.length = 4 := by decide
 example : (exK.toDFA.accepts [1, 0], exK.accepts [1, 0], exK.toDFA.accepts [0, 1]) =
     (true, true, false) := by decide
 example : (exK.toDFAMin).states.length = 4 := by decide
+example : (exK.toDFAMin).validate = .ok () ∧ ∀ w, (exK.toDFAMin).accepts w = exK.accepts w :=
+  C07_from_nfa_min exK (by rfl) exK_pyShape _
+example : (exN.toDFAMin).validate = .ok () ∧ ∀ w, (exN.toDFAMin).accepts w = exN.accepts w :=
+  C07_from_nfa_min exN (by rfl) exN_pyShape _
 
 example : ((NFA.ofDFA exD).accepts [0, 1], (NFA.ofDFA exD).accepts [1, 1]) = (true, false) := by decide
 
